@@ -1123,6 +1123,18 @@ def check_C09(chk, R, S):
     _many_nodes_class(chk, R, S, [M.mon_C09])
     run_sim_class(chk, "sim-range-set-before-start", [gen_range_before_start(R, everybody=False) for _ in range(max(30, S["sims"] // 10))], [M.mon_C09])
     run_sim_class(chk, "sim-range-around-source-constants", gen_range_around_constants(R), [M.mon_C09])
+    # the range gate on a lossy medium, the draws scripted (mostly above the rate): delivered iff in range AND the draw passes
+    lossy = []
+    for _ in range(max(40, S["sims"] // 5)):
+        sc = gen_range_scenario(R)
+        f = R.choice([0.3, 0.5, 0.8])
+        sc["med"] = (sc["med"][0], sc["med"][1], f)
+        sc["stream"] = [R.choice([0.999, 0.999, f + 0.01, f, 0.0, R.random()]) for _ in range(600)]
+        lossy.append(sc)
+
+    def mon_lossy(sc, tr):
+        return [x.replace("C10:", "C09:") for x in M.mon_C10(sc, tr) if "draws consumed" not in x]
+    run_sim_class(chk, "sim-range-lossy-scripted", lossy, [mon_lossy])
     nb = sum(1 for sc in scs for nd in sc["nodes"][1:] if (M._py_sq(sc["nodes"][0]["pos"], nd["pos"]) == sc["med"][0] ** 2))
     chk.extra["boundary_pairs"] = nb
 
@@ -1449,6 +1461,25 @@ def check_C18(chk, R, S):
                          for k in (R.choice(["AP", "EP", "EP", "ASIM", "ESIM", "ESIM"]) for _ in range(R.randint(8, 20)))]
         crowd.append(sc)
     run_sim_class(chk, "sim-many-assertions", crowd, [M.mon_C18])
+    # every order in which 2-3 nodes of one type hold the flag for a short while (disjoint windows), plus nodes that never do
+    win = []
+    for nn in (2, 3):
+        for order in itertools.permutations(range(nn)):
+            for kind in (("EP", 0), ("ESIM", "any"), ("ESIM", "all"), ("AP", 0)):
+                for lazy in (None, 0, nn - 1):
+                    script = []
+                    for me in range(nn):
+                        slot = order.index(me)
+                        if lazy == me:
+                            script.append([])
+                            continue
+                        script.append([{"trig": ("init",), "nth": None, "acts": [("settimer", 0, "abs", 1.0 + 2 * slot), ("settimer", 1, "abs", 2.0 + 2 * slot)]},
+                                       {"trig": ("timer", 0), "nth": None, "acts": [("flag", True)]},
+                                       {"trig": ("timer", 1), "nth": None, "acts": [("flag", False)]}])
+                    win.append({"handlers": ["T", "R0", "A"], "nodes": [{"pos": (float(i), 0.0, 0.0), "ty": 0} for i in range(nn)],
+                                "med": (60.0, 0.0, 0.0), "mob": (1.0, 1.0, (0.0, 0.0, 0.0)), "asserts": [kind], "seed": 1, "dur": None,
+                                "maxit": None, "drv": ("run",), "script": script})
+    run_sim_class(chk, "assert-flag-windows-exhaustive", win, [M.mon_C18])
     # small-scope exhaustive: 1 node, timeline of flag values over 3 events x every assertion kind
     ex = []
     for bits in itertools.product([0, 1], repeat=4):
@@ -2005,7 +2036,7 @@ def gen_interop_case(R, with_cancel=False):
     cbs.append({"t": t, "kind": "finish", "arg": None})
     for cb in cbs:
         if R.random() < 0.3:
-            cb["tracks"] = [(R.randrange(5), R.randrange(100)) for _ in range(R.randint(1, 3))]
+            cb["tracks"] = [(R.randrange(5), R.randrange(100) if R.random() < 0.6 else 1000 + R.randrange(12)) for _ in range(R.randint(1, 3))]
     case = {"nid": nid, "ty": R.choice([0, 1, 2]), "rules": rules, "cbs": cbs, "id_first": R.random() < 0.5}
     if R.random() < 0.35:
         # a plugin switched on in the middle of the session (from inside a callback, after callbacks of the kind it
